@@ -281,6 +281,20 @@ func actUpdateCoins(svc, prov, owner string, dep sdk.Coins) Action {
 		Msg: st.NewMsgUpdateServiceBinding(svc, A(prov), dep, "", 0, "{}", A(owner))}
 }
 
+func actEnableCoins(svc, prov, owner string, dep sdk.Coins) Action {
+	return Action{Name: fmt.Sprintf("enable(%s,%s,%s,+%s)", svc, prov, owner, dep), Kind: "enable", Svc: svc, Prov: A(prov), Signer: A(owner), Tmpl: -1,
+		Msg: st.NewMsgEnableServiceBinding(svc, A(prov), dep, A(owner))}
+}
+
+// actUpdateOpts: an update that carries a pricing and the given options text.
+func actUpdateOpts(svc, prov, owner, pr, options string) Action {
+	return Action{Name: fmt.Sprintf("update(%s,%s,%s,%s,options %q)", svc, prov, owner, pr, options), Kind: "update", Svc: svc, Prov: A(prov), Signer: A(owner),
+		Pricing: pricingText(pr), Tmpl: -1, Msg: st.NewMsgUpdateServiceBinding(svc, A(prov), nil, pricingText(pr), 0, options, A(owner))}
+}
+
+// negCoins: a coin list holding one negative amount (only constructible by hand; a transaction can carry it).
+func negCoins(n int64) sdk.Coins { return sdk.Coins{sdk.Coin{Denom: denom, Amount: sdk.NewInt(-n)}} }
+
 // actBindBig: a binding whose price and deposit are beyond int64 (decimal strings).
 func actBindBig(svc, prov, owner, dep, price string, qos uint64) Action {
 	return actBindBigText(svc, prov, owner, dep, price, `{"price":"`+price+`stake"}`, qos)
@@ -290,6 +304,13 @@ func actBindBigText(svc, prov, owner, dep, price, pt string, qos uint64) Action 
 	return Action{Name: fmt.Sprintf("bind(%s,%s,%s,%s,price %s,q%d)", svc, prov, owner, dep, price, qos), Kind: "bind", Svc: svc, Prov: A(prov), Signer: A(owner),
 		Pricing: pt, QoS: qos, Tmpl: -1,
 		Msg: st.NewMsgBindService(svc, A(prov), bigCoins(dep), pt, qos, "{}", A(owner))}
+}
+
+// actUpdateBigPrice: a price update to a decimal price beyond int64 arithmetic.
+func actUpdateBigPrice(svc, prov, owner, price string) Action {
+	pt := `{"price":"` + price + `stake"}`
+	return Action{Name: fmt.Sprintf("update(%s,%s,%s,price %s)", svc, prov, owner, price), Kind: "update", Svc: svc, Prov: A(prov), Signer: A(owner), Pricing: pt, Tmpl: -1,
+		Msg: st.NewMsgUpdateServiceBinding(svc, A(prov), nil, pt, 0, "{}", A(owner))}
 }
 
 // actUpdateBig / actEnableBig: top-ups beyond int64.
